@@ -15,7 +15,7 @@ from vlib import model, workspace
 from vlib.harness import hyp_settings, Violation, quiet, collecting
 
 PROPERTY = "C14"
-RULE = ("a pool of 17 deliberately dissimilar (country|world, scenario) items (both nutrition profiles, populations 3e5..1.4e9, horizons 48 "
+RULE = ("a pool of 19 deliberately dissimilar (country|world, scenario) items (both nutrition profiles, populations 3e5..1.4e9, horizons 48 "
         "and 120, with/without resilient foods, different waste, country and world scale); the digest (SHA-256 over the headline, every "
         "monthly series of the result, the meat and herd trajectories, raw float64 bytes) of each item computed ALONE in a freshly spawned "
         "interpreter is the reference; a rule-based state machine then runs histories of 2..6 steps in one process - run item i, run the "
@@ -49,6 +49,9 @@ POOL = [
     ("USA", dict(B, meat_cattle_head=20000000, kg_meat_per_large_animal=150.0, NMONTHS=48)),
     ("ARG", dict(B, chicken_head=500000000, pig_head=100000, NMONTHS=48)),
     ("ARG", dict(B, NMONTHS=48)),
+    # any column of the input table can be overridden from the scenario file: the same country with another population / harvest
+    ("ARG", dict(B, population=30000000, NMONTHS=48)),
+    ("USA", dict(B, population=90000000, crop_kcals=2.0e8, NMONTHS=48)),
 ]
 # batches: several countries run by ONE call of the multi-country runner with ONE option dictionary (the runner shares it between the
 # countries of a batch, in the row order of the input table); every country's result must be what it is when run alone.  Three batches
@@ -258,6 +261,18 @@ def shard(ctx):
     with collecting(ctx):
         run_state_machine_as_test(hypothesis.seed(seed)(M), settings=hyp_settings(38 if thorough else 3, shrink=False, stateful_steps=6))
     # every batch is run on every check (not left to the draw)
+    # state keyed by the country is the likeliest leak: every ordered pair of pool items of the SAME country is run back to back on every check
+    same = [(a, b) for a in range(len(POOL)) for b in range(len(POOL)) if a != b and POOL[a][0] == POOL[b][0]]
+    for n, (a, b) in enumerate(same):
+        if n % ctx.nshards != ctx.shard:
+            continue
+        ctx.count()
+        ctx.event("same_country_pair")
+        try:
+            replay(dict(steps=[["run", a], ["run", b]]), ctx, count=False)
+            ctx.nontrivial_case(["same-country pair", a, b])
+        except Violation as v:
+            ctx.record_violation(v)
     if ctx.shard < len(BATCHES) * (4 if thorough else 1):
         try:
             run_batch(ctx, ctx.shard % len(BATCHES), [["after-the-random-history-of-shard", ctx.shard]])
